@@ -23,6 +23,7 @@ MODULES = {
     "C10": ("checks.wrun", "C10"),
     "C11": ("checks.wrun", "C11"),
     "C20": ("checks.wrun", "C20"),
+    "C17": ("checks.wrun", "C17"),
     "C18": ("checks.wrun", "C18"),
     "C19": ("checks.wrun", "C19"),
 }
